@@ -2,6 +2,7 @@ package main
 
 import (
 	"fmt"
+	"go/token"
 	"strings"
 
 	"golang.org/x/tools/go/ssa"
@@ -79,6 +80,71 @@ func ruleErrflow(c *Ctx) *RuleResult {
 			}
 			if used {
 				r.ok("")
+				// (a') identity: when that error is what the function goes on to return, it
+				// is returned as it is. Re-wrapping it (NewError(ErrorValue(err)), fmt.Errorf)
+				// makes a fresh error: the 'already handled' flag, the traceback and the
+				// position prefix already applied are lost, so pcall/xpcall see a different
+				// value (a message prefixed twice, a handler run twice)
+				var ev ssa.Value = call
+				if res.Len() > 1 {
+					for _, ref := range *call.Referrers() {
+						if ex, ok := ref.(*ssa.Extract); ok && ex.Index == ei {
+							ev = ex
+						}
+					}
+				}
+				fres := f.Signature.Results()
+				if fres.Len() == 0 || !isErrorType(fres.At(fres.Len()-1).Type()) {
+					return
+				}
+				forEachInstr(f, func(ri ssa.Instruction) {
+					ret, ok := ri.(*ssa.Return)
+					if !ok || len(ret.Results) == 0 {
+						return
+					}
+					rv := ret.Results[len(ret.Results)-1]
+					if rv == ev || isNilConst(rv) {
+						return
+					}
+					// direct phi/alloc copies of the same error are identity
+					direct := map[ssa.Value]bool{}
+					var walk func(v ssa.Value, d int)
+					walk = func(v ssa.Value, d int) {
+						if d > 6 || direct[v] {
+							return
+						}
+						direct[v] = true
+						switch x := v.(type) {
+						case *ssa.Phi:
+							for _, e := range x.Edges {
+								walk(e, d+1)
+							}
+						case *ssa.UnOp:
+							if al, ok := x.X.(*ssa.Alloc); ok {
+								for _, ref := range *al.Referrers() {
+									if st, ok := ref.(*ssa.Store); ok && st.Addr == ssa.Value(al) {
+										walk(st.Val, d+1)
+									}
+								}
+							}
+						case *ssa.ChangeInterface:
+							walk(x.X, d+1)
+						}
+					}
+					walk(rv, 0)
+					if direct[ev] {
+						return
+					}
+					if !backSlice(rv, true)[ev] {
+						return
+					}
+					key := "error-rewrapped:" + fnKey(f) + "->" + name
+					if why, ok := rewrapTable[fnKey(f)+"->"+name]; ok {
+						r.Samples = append(r.Samples, "table: "+key+" — "+why)
+						return
+					}
+					r.fail(key, p.InstrPos(ri), fmt.Sprintf("%s returns an error built from the one %s returned instead of that error itself: a Lua error crossing this function becomes a fresh error (its handled flag, traceback and position prefix are lost), so the value pcall/xpcall deliver is not the value that was raised", fnKey(f), name))
+				})
 				return
 			}
 			dropped++
@@ -92,6 +158,64 @@ func ruleErrflow(c *Ctx) *RuleResult {
 			}
 			r.fail("error-discarded:"+key, p.InstrPos(ins), fmt.Sprintf("%s discards the error returned by %s: a Lua error raised there would vanish instead of reaching the nearest protected call", fnKey(f), name))
 		})
+	}
+	// (d) the message handler's first result is the error value: the continuation that
+	// receives the handler's results keeps the first value pushed and ignores the rest
+	// (a write-once latch: the store is guarded by a flag that the same path then sets)
+	if push := p.Func("runtime", "(*messageHandlerCont).Push"); push != nil {
+		gc := newGuardCtx(push)
+		latched, found := false, false
+		forEachInstr(push, func(ins ssa.Instruction) {
+			st, ok := ins.(*ssa.Store)
+			if !ok {
+				return
+			}
+			fa, ok := st.Addr.(*ssa.FieldAddr)
+			if !ok {
+				return
+			}
+			if _, tn, fn := fieldOfAddr(fa); tn != "messageHandlerCont" || fn != "err" {
+				return
+			}
+			found = true
+			// guard: a test of another field of the receiver on every path to the store
+			for _, ge := range gc.MustEdges(st.Block()) {
+				cond := ge.If.Cond
+				for {
+					if u, ok := cond.(*ssa.UnOp); ok && u.Op == token.NOT {
+						cond = u.X
+						continue
+					}
+					break
+				}
+				u, ok := cond.(*ssa.UnOp)
+				if !ok || u.Op != token.MUL {
+					continue
+				}
+				gfa, ok := u.X.(*ssa.FieldAddr)
+				if !ok || gfa.X != fa.X {
+					continue
+				}
+				// the same flag is set on the path of the store
+				forEachInstr(push, func(o ssa.Instruction) {
+					if s2, ok := o.(*ssa.Store); ok {
+						if f2, ok := s2.Addr.(*ssa.FieldAddr); ok && f2.X == fa.X && f2.Field == gfa.Field && (s2.Block() == st.Block() || st.Block().Dominates(s2.Block()) || s2.Block().Dominates(st.Block())) {
+							latched = true
+						}
+					}
+				})
+			}
+		})
+		switch {
+		case !found:
+			r.broken("(*messageHandlerCont).Push no longer stores the handler's result (anchor moved?)")
+		case latched:
+			r.ok("(d) the message-handler continuation keeps the first value pushed (write-once latch)")
+		default:
+			r.fail("handler-result-not-first", p.Pos(push.Pos()), "(*messageHandlerCont).Push overwrites the stored value on every push: a message handler that returns several values has its last result, not its first, delivered as the error value of xpcall")
+		}
+	} else {
+		r.broken("anchor unresolved: runtime.(*messageHandlerCont).Push")
 	}
 	r.count("error_returning_calls_checked", checked)
 	r.count("errors_discarded_table_listed", dropped)
@@ -389,5 +513,74 @@ func rulePool(c *Ctx) *RuleResult {
 	if p.Config.Tags == "" {
 		r.floor("pool_release_call_sites", 6)
 	}
+	// a register set goes back to a pool wiped: in the pooling builds the store of the
+	// set into the pool is behind a loop over that set that stores the zero value into
+	// every element, on every path. A set recycled with its old cells would make the
+	// next function's locals alias whatever the previous user's cells were (upvalues of
+	// its closure included) — a difference between the pooled and the unpooled builds
+	nWipe := 0
+	for _, name := range []string{"(*cellPool).release", "(*valuePool).release"} {
+		f := p.Func("runtime", name)
+		if f == nil || f.Blocks == nil {
+			continue // the no-pool builds have value receivers and empty bodies
+		}
+		set := f.Params[1]
+		var poolStores []*ssa.Store
+		forEachInstr(f, func(ins ssa.Instruction) {
+			st, ok := ins.(*ssa.Store)
+			if !ok || stripConv(st.Val) != ssa.Value(set) {
+				return
+			}
+			if _, ok := st.Addr.(*ssa.IndexAddr); ok {
+				poolStores = append(poolStores, st)
+			}
+		})
+		if len(poolStores) == 0 {
+			continue
+		}
+		nWipe++
+		// wiping stores: element of the set <- zero value
+		var wipeBlocks []*ssa.BasicBlock
+		forEachInstr(f, func(ins ssa.Instruction) {
+			st, ok := ins.(*ssa.Store)
+			if !ok {
+				return
+			}
+			ia, ok := st.Addr.(*ssa.IndexAddr)
+			if !ok || stripConv(ia.X) != ssa.Value(set) {
+				return
+			}
+			if k, ok := st.Val.(*ssa.Const); ok && (k.Value == nil) {
+				wipeBlocks = append(wipeBlocks, st.Block())
+			}
+		})
+		okAll := len(wipeBlocks) > 0
+		for _, ps := range poolStores {
+			// the loop that wipes: its header (the unique predecessor region entry of the
+			// wiping block that dominates it and is in a cycle with it) dominates the pool store
+			dom := false
+			for _, wb := range wipeBlocks {
+				for h := wb; h != nil; h = h.Idom() {
+					if blockReaches(wb, h) && h.Dominates(wb) && h != wb && h.Dominates(ps.Block()) {
+						dom = true
+					}
+				}
+			}
+			if !dom {
+				okAll = false
+			}
+		}
+		if okAll {
+			r.ok(fmt.Sprintf("%s wipes the register set before putting it into the pool, on every path", name))
+		} else {
+			r.fail("pool-set-not-wiped:"+name, p.Pos(f.Pos()), fmt.Sprintf("runtime.%s can put a register set into the pool without having stored the zero value into every element first: the next continuation that gets the set sees the previous user's cells or values, which the build without pools never does", name))
+		}
+	}
+	r.count("pooling_release_functions", nWipe)
 	return r
+}
+
+// rewrapTable: functions that deliberately return a new error built from a Lua error they received.
+var rewrapTable = map[string]string{
+	"(*runtime.Thread).RunContinuation->RunInThread": "the one designated place where the error a continuation returns is turned into a Lua error and given its position: ToError keeps an *Error as it is, AddContext prefixes once, and a handled error is returned unchanged",
 }
